@@ -6,6 +6,7 @@ import (
 	"encoding/json"
 	"fmt"
 	"sync"
+	"sync/atomic"
 	"testing"
 	"time"
 
@@ -129,9 +130,155 @@ func orderCase(c *kit.Case) {
 	w.Shutdown()
 }
 
+// tailLossCase: 1-4 positioned subscribers join a channel with SharedPositionSync at staggered instants,
+// receive a few publications, the channel stays quiet long enough for the periodic position checks to
+// settle into their rhythm, then the LAST publication is lost in PUB/SUB (it is in the stream, no
+// subscriber gets it) and nothing is published afterwards. No later publication can reveal the gap: only
+// the periodic position check can. Every positioned subscription must be ended (insufficient state)
+// within the horizon, whatever the phase of the subscribers' ticks.
+func tailLossCase(c *kit.Case) {
+	r := c.R
+	w := kit.NewWorld(c)
+	const ch = "c38:tail"
+	var mo centrifuge.ChannelMediumOptions
+	mo.SharedPositionSync = true
+	mo.KeepLatestPublication = r.Bool()
+	centrifuge.VerifSetMediumInternals(&mo, r.Chance(1, 3), 0, 0)
+	var dropNext atomic.Bool
+	var dropped atomic.Int64
+	checkDelay := time.Duration(kit.Pick(r, []int{2, 2, 3, 5})) * time.Second
+	var fb *kit.FaultBroker
+	node, _ := w.NewNode(centrifuge.Config{
+		ClientStaleCloseDelay:           time.Hour,
+		ClientPresenceUpdateInterval:    time.Second,
+		ClientChannelPositionCheckDelay: checkDelay,
+		GetChannelMediumOptions:         func(string) centrifuge.ChannelMediumOptions { return mo },
+	}, func(n *centrifuge.Node) {
+		fb = kit.NewFaultBroker(w, n)
+		fb.Plan = func(string, *centrifuge.Publication, centrifuge.StreamPosition) kit.FaultAction {
+			if dropNext.CompareAndSwap(true, false) {
+				dropped.Add(1)
+				return kit.Drop
+			}
+			return kit.Pass
+		}
+		n.SetBroker(fb)
+		n.OnConnecting(func(context.Context, centrifuge.ConnectEvent) (centrifuge.ConnectReply, error) {
+			return kit.Creds("u"), nil
+		})
+		n.OnConnect(func(cl *centrifuge.Client) {
+			cl.OnSubscribe(func(e centrifuge.SubscribeEvent, cb centrifuge.SubscribeCallback) {
+				cb(centrifuge.SubscribeReply{Options: centrifuge.SubscribeOptions{EnablePositioning: true, EnableRecovery: r.Bool()}}, nil)
+			})
+		})
+	})
+	nSub := r.Range(1, 4)
+	conns := make([]*kit.Conn, nSub)
+	join := func(i int) bool {
+		conns[i] = w.NewConn(node, kit.TransportOpts{Protocol: kit.Pick(r, []centrifuge.ProtocolType{centrifuge.ProtocolTypeJSON, centrifuge.ProtocolTypeProtobuf}),
+			PingPong: centrifuge.PingPongConfig{PingInterval: -1, PongTimeout: -1}}) // the model client answers no pings: no ping/pong here
+		conns[i].Connect(nil)
+		id := conns[i].Subscribe(&protocol.SubscribeRequest{Channel: ch})
+		if f, ok := conns[i].WaitReply(id); !ok || f.Reply.Error != nil {
+			c.Inconclusive("tail loss case: subscribe failed")
+			return false
+		}
+		return true
+	}
+	if !join(0) {
+		w.Shutdown()
+		return
+	}
+	pub := func(n int) {
+		data, _ := json.Marshal(map[string]int{"n": n})
+		if _, err := node.Publish(ch, data, centrifuge.WithHistory(100, time.Minute)); err != nil {
+			c.Inconclusive("tail loss case: publish: " + err.Error())
+		}
+	}
+	nPub := r.Range(1, 5)
+	for n := 1; n <= nPub; n++ {
+		pub(n)
+		time.Sleep(time.Duration(r.Range(0, 300)) * time.Millisecond)
+	}
+	// The other subscribers join after the last delivered publication, more than a second apart: a
+	// delivered publication re-stamps every subscriber's last-check time at once (which would put their
+	// periodic checks into the same second for good), a later join has its own rhythm.
+	for i := 1; i < nSub; i++ {
+		time.Sleep(time.Duration(r.Range(1100, 2600)) * time.Millisecond)
+		if !join(i) {
+			w.Shutdown()
+			return
+		}
+	}
+	// quiet: every subscriber has had its turn at the periodic check at least twice (a client asks once
+	// per delay + 1 s), so the checks are in their steady rhythm before the loss
+	time.Sleep(2*(checkDelay+time.Second) + time.Duration(r.Range(500, 3500))*time.Millisecond)
+	dropNext.Store(true)
+	lostAt := w.Now()
+	pub(nPub + 1)
+	horizon := 3*(checkDelay+time.Second) + 3*time.Second
+	time.Sleep(horizon)
+	w.Settle()
+	if dropped.Load() != 1 {
+		c.Inconclusive("tail loss case: the last publication was not dropped exactly once")
+	}
+	ended, gotIt := 0, 0
+	var desc []string
+	for i, conn := range conns {
+		closed, disc, _ := conn.T.Closed()
+		end := ""
+		sawLast := false
+		for _, f := range conn.T.Frames() {
+			if f.Push != nil && f.Push.Channel == ch && f.Push.Unsubscribe != nil {
+				end = fmt.Sprintf("unsubscribe push %d", f.Push.Unsubscribe.Code)
+			}
+			if f.Push != nil && f.Push.Channel == ch && f.Push.Pub != nil {
+				var m map[string]int
+				_ = json.Unmarshal(f.Push.Pub.Data, &m)
+				if m["n"] == nPub+1 {
+					sawLast = true
+				}
+			}
+		}
+		told := end == "unsubscribe push 2500"
+		if closed {
+			end = fmt.Sprintf("closed with %d", disc.Code)
+			told = disc.Code == 3010
+		}
+		switch {
+		case sawLast:
+			gotIt++
+		case told: // insufficient state: unsubscribe push 2500 or disconnect 3010; any other ending does not tell the client about the loss
+			ended++
+		case end != "":
+			c.Inconclusive(fmt.Sprintf("tail loss case: subscriber %d ended for another reason: %s", i, end))
+		}
+		desc = append(desc, fmt.Sprintf("subscriber %d: received the lost publication=%v, end=%q", i, sawLast, end))
+	}
+	c.Eval(nSub)
+	c.Count("tail_loss_cases", 1)
+	c.Count("tail_loss_subscriptions_ended", ended)
+	if nSub >= 2 {
+		c.Count("tail_loss_cases_with_staggered_subscribers", 1)
+	}
+	if ended+gotIt < nSub {
+		c.Violation("c38-position-loss-never-detected-under-shared-position-sync", fmt.Sprintf("SharedPositionSync, %d positioned subscriber(s), position check delay %s: the last publication (offset %d) was lost in PUB/SUB at %v and the channel stayed quiet; %s later %d subscription(s) are still alive behind the stream top and were told nothing", nSub, checkDelay, nPub+1, lostAt, horizon, nSub-ended-gotIt),
+			map[string]any{"medium": fmt.Sprintf("%+v", mo), "subscribers": desc, "check_delay": checkDelay.String()})
+	}
+	c.Nontrivial(fmt.Sprintf("tail %+v n%d d%s ended%d", mo, nSub, checkDelay, ended))
+	for _, conn := range conns {
+		_ = conn.CloseFn()
+	}
+	w.Shutdown()
+}
+
 func runCase(c *kit.Case) {
 	if c.Index%5 == 4 {
 		orderCase(c)
+		return
+	}
+	if c.Index%5 == 2 {
+		tailLossCase(c)
 		return
 	}
 	posdeliv.RunCase(c, posdeliv.Options{Prefix: "c38", Anchor: true, Medium: func(r *kit.Rand) centrifuge.ChannelMediumOptions { return mediumFor(r, false) }})
@@ -142,7 +289,7 @@ func TestC38(t *testing.T) {
 		ID:     "C38",
 		Level:  "fault_enumeration",
 		Bubble: true,
-		Rule: "4 of 5 cases: the C01 scenario and oracle (positioned subscribers, racing publishes inside the subscribe windows, PUB/SUB faults, recovery, bounded progress after faults stop) with the channel medium enabled in a seeded combination of KeepLatestPublication / SharedPositionSync / queue / queue size; 1 of 5 cases: non-positioned subscribers behind a medium with queue and broadcast delay must receive publications in production order, each at most once. " +
+		Rule: "1 of 5 cases: tail loss under SharedPositionSync: one positioned subscriber, a few delivered publications, then 0-3 more positioned subscribers joining 1.1-2.6 s apart (so that their periodic checks fall into different seconds; periodic tick 1 s, position check delay 2-5 s), a quiet period of two check rounds (2 x (delay + 1 s) + 0.5-3.5 s) so that the periodic checks are in their steady rhythm, then the last publication is lost in PUB/SUB and nothing follows; every subscription must be told (unsubscribe 2500 / disconnect 3010) within 3 x (delay + 1 s) + 3 s. 3 of 5 cases: the C01 scenario and oracle (positioned subscribers, racing publishes inside the subscribe windows, PUB/SUB faults, recovery, bounded progress after faults stop) with the channel medium enabled in a seeded combination of KeepLatestPublication / SharedPositionSync / queue / queue size; 1 of 5 cases: non-positioned subscribers behind a medium with queue and broadcast delay must receive publications in production order, each at most once. " +
 			"Non-trivial = at least one subscription incarnation observed; signature = fault mode x medium options x per-incarnation outcome.",
 		Assumptions: []string{
 			"broadcast delay is only combined with non-positioned subscribers, as documented",
@@ -150,7 +297,7 @@ func TestC38(t *testing.T) {
 			"unexported medium options (queue, queue size, broadcast delay) are set through the tag-guarded accessor VerifSetMediumInternals",
 		},
 		Cases:           map[string]int{"quick": 1500, "thorough": 30000},
-		RequireCounters: []string{"publish_spanning_subscription_start", "recovered_incarnations", "insufficient_state_endings", "racer_publishes", "faults_injected", "alive_at_top", "nonpositioned_publications_delivered"},
+		RequireCounters: []string{"publish_spanning_subscription_start", "recovered_incarnations", "insufficient_state_endings", "racer_publishes", "faults_injected", "alive_at_top", "nonpositioned_publications_delivered", "tail_loss_cases_with_staggered_subscribers", "tail_loss_subscriptions_ended"},
 		Run:             runCase,
 	})
 }
